@@ -11,7 +11,8 @@ SPEC = {
                   "held at the same time never share a local index (C29_distinct_tunnels_distinct_indexes); in every step an index leaves the "
                   "pending+main namespace or the relay namespace only together with its owner, and a RemoteIndexes entry disappears only together "
                   "with the tunnel it pointed to (C29_release_only_owner). The executable predicates evaluated on the implementation's dumps are "
-                  "implied by these propositions (C29_exec).",
+                  "implied by these propositions (C29_exec). "
+                  "System level (component sysmon_C29): the canonical dumps of the main hostmap, relay indexes and pending maps of four real nodes built by nebula.Main, taken after every driver call of seeded event histories, are evaluated in Coq with the same executable predicates (idxb on every dump, releaseb between successive dumps).",
     "level_note": "Trusted: Coq kernel; the overlay shim (real allocateIndex / generateIndex / CheckAndComplete / Complete / AddRelay / delete "
                   "paths with crypto/rand.Reader replaced by a scripted stream for the duration of a call) and the harness; the model<->Go link is "
                   "differential testing. Concurrency is not modelled: each entry point is atomic under the hostmap and handshake-manager locks. "
@@ -19,7 +20,7 @@ SPEC = {
     "gens": ["gen_hostmap"],
     "props": ["props/C29.v"],
     "corr": ["corr/HostMap_corr.v"],
-    "comps": [{"comp": "hostmap_idx", "n_quick": 300, "n_thorough": 6000}],
+    "comps": [{"comp": "hostmap_idx", "n_quick": 300, "n_thorough": 6000}, {"comp": "sysmon_C29", "e2e": True, "n_quick": 12, "n_thorough": 150}],
     "build_comp": "hostmap",
     "trusted": ["model/HostMap.v mirrors allocateIndex (32 tries, pending and main map checked), generateIndex (zero skipped), CheckAndComplete's "
                 "ErrLocalIndexCollision checks, Complete, AddRelay (32 tries, promotion first) and both unlockedDeleteHostInfo functions; tied by "
